@@ -13,6 +13,12 @@ THEOREMS = [
     "Remoc.Table.allocInv_alloc",
     "Remoc.Table.allocInv_handleRx",
     "Remoc.Table.terminate_iff",
+    "Remoc.Table.Sys.no_frame_for_absent_port",
+    "Remoc.Table.Sys.freed_port_unreferenced",
+    "Remoc.Table.Sys.clean_termination",
+    "Remoc.Table.Sys.clean_termination_reclaims",
+    "Remoc.Table.Sys.internal_steps_terminate",
+    "Remoc.Table.Sys.wireInvB_reachable",
 ]
 RULE = ("settle-separated scripts on two real endpoints: concurrent connects (wait and no-wait), accepts, inspected requests "
         "accepted/rejected/dropped, port batches over ports, cancelled calls, drops of senders/receivers/clients/listeners in "
@@ -24,18 +30,29 @@ RULE = ("settle-separated scripts on two real endpoints: concurrent connects (wa
         "distinct script.")
 TRUSTED_BASE = [
     "M_table (handle_event / handle_received_msg / maybe_free_port / should_terminate as total functions) and M_pair (one port direction over a FIFO)",
+    "the two-endpoint system model lean/RemocModel/Table/Conn.lean (API objects of a conforming application, FIFO wires, one label "
+    "per await-free block; the dispatcher handles no local event after it sent Goodbye and no message after it received Goodbye); "
+    "the exit of run() (dropping the ChMux with whatever is left in its table and queues) is not a label of the model",
     "the connection is a FIFO in each direction; Tokio's task accounting (num_alive_tasks)",
     "harness world and lean/Driver/Conn.lean",
 ]
 ASSUMPTIONS = ["single-threaded paused runtime: sleep(1ns) returns at quiescence"]
-LEVEL_TEXT = ("Lean 4 theorems: for every schedule of a port direction nothing is in flight towards an endpoint once it has seen "
-              "SendFinish and ReceiveFinish (so releasing the number on four flags is safe) and the entry is released only in the "
-              "step that sets the fourth flag; allocator discipline (distinct numbers, <= max_ports) is preserved by every "
-              "received message and allocation; the Goodbye condition is characterised. Tied to the code by replaying both real "
-              "dispatchers on the model and by reclamation predicates on real runs (allocator capacity, run results, task count).")
-LEVEL_NOTE = ("Partial: 'both dispatchers finish Ok' and 'no background task left' are runtime facts checked on the explored runs "
-              "only; the cross-endpoint liveness argument (Goodbye exchange) is not proved.")
-TECHNIQUE = "Lean 4 invariant proofs (FIFO port-direction model, dispatcher functions) + two-endpoint trace replay and reclamation predicates on the real crate"
+LEVEL_TEXT = ("Lean 4 theorems. Single direction / single step: nothing is in flight towards an endpoint once it has seen SendFinish "
+              "and ReceiveFinish, the entry is released only in the step that sets the fourth flag, allocator discipline, the "
+              "Goodbye condition. Over the two-endpoint system model, for ALL label lists and any max_ports / connect_queue: "
+              "nothing is ever in flight for a port number that is not in the receiver's table, so a freed port is unreferenced "
+              "at the moment it is freed (safe reuse); clean termination: once every API object of both sides is dropped and no "
+              "internal label is enabled, both dispatchers have sent and received Goodbye, nothing is in flight and no connected "
+              "port entry is left in either table, and where no request issued after the peer's Goodbye is left the table is empty "
+              "and every port number is free; a potential function strictly decreases with every internal step (no livelock). "
+              "Tied to the code by replaying both real dispatchers on the model, by evaluating the decidable form of the global "
+              "invariant (pairing, one finish per flag, no frame for a port that is not in the table, connection flags, Goodbye "
+              "only when should_terminate holds) after every frame of the real traces, and by reclamation predicates on real runs "
+              "(allocator capacity, run results, task count).")
+LEVEL_NOTE = ("Partial: 'both dispatchers return Ok' and 'no background task left' are runtime facts checked on the explored runs; "
+              "what is left in a table when run() returns (requests issued after the peer's Goodbye) is dropped with the ChMux "
+              "object, which the model does not represent; 'eventually' rests on weak fairness of the scheduler.")
+TECHNIQUE = "Lean 4 invariant proofs (FIFO port-direction model, dispatcher functions, two-endpoint labelled transition system with a global invariant and a termination measure) + two-endpoint trace replay, global-invariant and reclamation predicates on the real crate"
 DESIGN_REF = "DESIGN.md section 5, C07"
 
 
